@@ -113,6 +113,8 @@ struct GateState {
     /// is really blocked inside a primitive the simulator does not intercept
     epoch: u64,
     forced: u32,
+    /// who held the turn, hand-over by hand-over: the interleaving that actually took place
+    trace: Vec<u8>,
 }
 
 /// Payload of the panic with which a simulated caller thread leaves the library when both callers
@@ -126,7 +128,7 @@ thread_local! {
 impl Gate {
     pub fn new(order: &[u8]) -> std::sync::Arc<Gate> {
         let g = Gate {
-            m: std::sync::Mutex::new(GateState { turn: None, order: order.iter().copied().collect(), done: [false; 2], blocked: [false; 2], switches: 0, epoch: 0, forced: 0 }),
+            m: std::sync::Mutex::new(GateState { turn: None, order: order.iter().copied().collect(), done: [false; 2], blocked: [false; 2], switches: 0, epoch: 0, forced: 0, trace: vec![] }),
             cv: std::sync::Condvar::new(),
         };
         {
@@ -178,8 +180,17 @@ impl Gate {
             st.switches += 1;
         }
         st.turn = next;
+        if let Some(t) = next {
+            if st.trace.len() < 256 {
+                st.trace.push(t);
+            }
+        }
         st.epoch += 1;
         self.cv.notify_all();
+    }
+    /// The interleaving that took place: which caller proceeded at each scheduling point.
+    pub fn trace(&self) -> Vec<u8> {
+        self.m.lock().unwrap().trace.clone()
     }
     /// `me` found a lock held by the other caller: run the other one. Err = nobody can run.
     fn yield_blocked(&self, me: u8) -> Result<(), ()> {
